@@ -410,6 +410,52 @@ func feeHistory(seed uint64) History {
 	}
 	h.Race = newRaces()
 
+	// second phase, values rather than accesses: every fee type of every quote now has exactly ONE writer. What that
+	// writer stored and saw acknowledged is what it (and, once all have finished, anyone) reads back, whatever the
+	// writers of the other fee types of the same object do meanwhile (an update lost to a concurrent writer of another
+	// key is not a data race; only the values show it).
+	{
+		var wg2 sync.WaitGroup
+		start2 := make(chan struct{})
+		last := make([][2]uint64, nq)
+		for k := range quotes {
+			for fi, ft := range feeTypes {
+				k, fi, ft := k, fi, ft
+				wg2.Add(1)
+				go func() {
+					defer wg2.Done()
+					<-start2
+					for it := 0; it < 300; it++ {
+						id := uint64(50000000 + k*1000000 + fi*100000 + it)
+						quotes[k].AddQuote(ft, mkFee(ft, id))
+						last[k][fi] = id
+						f, err := quotes[k].Fee(ft)
+						if err != nil || feeID(f) != id {
+							rc.badf("q%d: Fee(%s) returned %d right after its only writer stored %d (error %v): an acknowledged write was lost", k, ft, feeID(f), id, err)
+							return
+						}
+					}
+				}()
+			}
+		}
+		rc.kind("single-writer-per-fee-type phase")
+		close(start2)
+		if !waitAll(&wg2, 30*time.Second) {
+			h.Deadlock = true
+			return h
+		}
+		for k := range quotes {
+			for fi, ft := range feeTypes {
+				if f, err := quotes[k].Fee(ft); err != nil || feeID(f) != last[k][fi] {
+					rc.badf("q%d: after all writers finished Fee(%s) is %d, the last value stored is %d", k, ft, feeID(f), last[k][fi])
+				}
+			}
+		}
+		if nr := newRaces(); nr != "" {
+			h.Race += nr
+		}
+	}
+
 	// allowed values of the derived locations Q.fee.<miner>.<ft>: whatever any object that was ever
 	// in that slot held for that fee type
 	for _, m := range miners {
@@ -573,6 +619,50 @@ func p2pkhJobs(r *common.Rand) []job {
 	return jobs
 }
 
+// multisigJobs: a 2-of-3 bare multisig output spent by a one-input transaction, with keys no execution of this
+// process has seen before; variant 1 carries a signature by a key that is not in the script.
+func multisigJobs(r *common.Rand) []job {
+	keys := []*bec.PrivateKey{keyFor(r), keyFor(r), keyFor(r)}
+	lockB := []byte{0x52}
+	for _, k := range keys {
+		pk := k.PubKey().SerialiseCompressed()
+		lockB = append(append(lockB, byte(len(pk))), pk...)
+	}
+	lockB = append(lockB, 0x53, 0xae)
+	lock := bscript.NewFromBytes(lockB)
+	tx := bt.NewTx()
+	sats := 1000 + uint64(r.Intn(100000))
+	if err := tx.From(hex.EncodeToString(r.Bytes(32)), uint32(r.Intn(4)), lock.String(), sats); err != nil {
+		panic(err)
+	}
+	tx.AddOutput(&bt.Output{Satoshis: 500, LockingScript: bscript.NewFromBytes([]byte{0x51})})
+	h, err := tx.CalcInputSignatureHash(0, sighash.AllForkID)
+	if err != nil {
+		panic(err)
+	}
+	variant := r.Intn(3)
+	signers := []*bec.PrivateKey{keys[0], keys[2]}
+	kind := "multisig/valid"
+	if variant == 1 {
+		signers[1] = keyFor(r)
+		kind = "multisig/foreign-signature"
+	}
+	unlock := []byte{0x00}
+	for _, k := range signers {
+		sig, err := k.Sign(h)
+		if err != nil {
+			panic(err)
+		}
+		sb := append(sig.Serialise(), byte(sighash.AllForkID))
+		unlock = append(append(unlock, byte(len(sb))), sb...)
+	}
+	tx.Inputs[0].UnlockingScript = bscript.NewFromBytes(unlock)
+	prev := &bt.Output{Satoshis: sats, LockingScript: lock}
+	return []job{{kind: kind, opts: func() []interpreter.ExecutionOptionFunc {
+		return []interpreter.ExecutionOptionFunc{interpreter.WithTx(tx, 0, prev), interpreter.WithAfterGenesis(), interpreter.WithForkID()}
+	}}}
+}
+
 var scriptPairs = [][2]string{
 	{"OP_2 OP_3 OP_ADD OP_5 OP_EQUAL", "OP_TRUE"},
 	{"OP_2 OP_3 OP_ADD OP_6 OP_EQUAL", "OP_TRUE"},
@@ -655,7 +745,9 @@ func engineRound(seed uint64, sameTx bool) EngineRound {
 	}
 	for nu := nu0; len(jobs) < target; nu++ {
 		var u []job
-		if r.Chance(60) || sameTx {
+		if r.Chance(25) && !sameTx {
+			u = multisigJobs(r)
+		} else if r.Chance(60) || sameTx {
 			u = p2pkhJobs(r)
 		} else {
 			u = []job{scriptJob(r)}
@@ -675,13 +767,21 @@ func engineRound(seed uint64, sameTx bool) EngineRound {
 	}
 	sort.Strings(out.Kinds)
 
-	// sequential verdicts first, with an engine of their own
-	seqEngine := interpreter.NewEngine()
-	out.Sequential = make([]bool, len(jobs))
-	for i, j := range jobs {
-		out.Sequential[i] = verdict(seqEngine, j)
+	// sequential verdicts, with an engine of their own: in every other round BEFORE the concurrent phase, else after
+	// it (a concurrent phase that comes second runs on whatever the sequential one has left behind in the process:
+	// caches are warm, lazily built tables are built)
+	sequential := func() {
+		seqEngine := interpreter.NewEngine()
+		out.Sequential = make([]bool, len(jobs))
+		for i, j := range jobs {
+			out.Sequential[i] = verdict(seqEngine, j)
+		}
 	}
-	newRaces() // nothing concurrent so far
+	coldStart := seed%2 == 0 && !sameTx
+	if !coldStart {
+		sequential()
+		newRaces() // nothing concurrent so far
+	}
 
 	// one shared engine; every (tx, input) pair is validated exactly once; all inputs of one tx by the
 	// same goroutine unless sameTx
@@ -711,5 +811,8 @@ func engineRound(seed uint64, sameTx bool) EngineRound {
 		out.Deadlock = true
 	}
 	out.Race = newRaces()
+	if coldStart && !out.Deadlock {
+		sequential()
+	}
 	return out
 }
